@@ -45,6 +45,14 @@ TraceStep ==
                                 /\ (/\ r.kind = "read" /\ Located(r, last'.from, last'.to)
                                     /\ r.size = Size(views'[r.v]) /\ r.offset = Offset(views'[r.v])
                                     /\ r.sizeLeft = SizeLeft(views'[r.v])) = TRUE
+            [] r.op = "read_exact" -> /\ ReadExact(r.v, r.n, r.len)
+                                      /\ (/\ r.kind = "read" /\ Located(r, last'.from, last'.to)
+                                          /\ r.size = Size(views'[r.v]) /\ r.offset = Offset(views'[r.v])
+                                          /\ r.sizeLeft = SizeLeft(views'[r.v])) = TRUE
+            [] r.op = "read_to_end" -> /\ ReadToEnd(r.v, r.len)
+                                       /\ (/\ r.kind = "read" /\ Located(r, last'.from, last'.to)
+                                           /\ r.size = Size(views'[r.v]) /\ r.offset = Offset(views'[r.v])
+                                           /\ r.sizeLeft = SizeLeft(views'[r.v])) = TRUE
             [] r.op = "get_slice" -> /\ GetSlice(r.v, r.a, r.n)
                                      /\ (r.kind = "bytes" /\ Located(r, last'.from, last'.to)) = TRUE
             [] OTHER -> FALSE
